@@ -75,6 +75,13 @@ def main():
                     cells = list(itertools.product(*per_axis))
                     rng.shuffle(cells)
                     atoms = [(tuple(c), rng.randint(1, 2)) for c in cells[:24 if d == 2 else 30]]
+                    if d == 3 and rep % 2 == 1:
+                        # two names that default together much more often than the third name defaults at all: the pair term of
+                        # the inclusion-exclusion is larger than the smallest marginal intensity
+                        both = [c for c in cells if c[0] < levels[0] and c[1] < levels[1] and c[2] > levels[2]]
+                        third = [c for c in cells if c[2] < levels[2] and c[0] > levels[0] and c[1] > levels[1]]
+                        none = [c for c in cells if all(c[k] > levels[k] for k in range(3))]
+                        atoms = [(tuple(c), 2) for c in both[:14]] + [(tuple(c), 1) for c in third[:1]] + [(tuple(c), 1) for c in none[:8]]
                     model = atomic.atom_copula_model(atoms, d, unit=None)
                     proc = MarkovChainLevyCopula(model, grid, SamplingMethod.INVERSION)
                     cf = CFLevyCopulaModel(proc.model)
